@@ -276,3 +276,57 @@ def c14_r7(ctx):
     ins = [c for c in norm.calls_in(f.node) if norm.call_name(c) == "insort"]
     ok = len(cmps) == 1 and len(ins) == 1 and A.eq(ins[0], "insort(best, (sortkey, global_docnum))") and A.eq(cmps[0], "sortkey < best[-1][0]")
     ctx.ob(f, ok, "a kept document is evicted only for a strictly smaller sort key", detail=str([A.text(c) for c in cmps]))
+
+
+MUST_CONSULT = {
+    # (function, parameter): why every result-producing path has to look at it
+    ("reading.SegmentReader.column_reader", "reverse"): "the sort keys (and the default key of a segment without the column) flip with it",
+}
+
+
+@rule("C14", "R8", "K9", "ordering flags reach every path; a clamped page number replaces the raw one",
+      min_instances=3,
+      clause="On every path of SegmentReader.column_reader / MultiReader.column_reader that returns a reader, the `reverse` "
+             "parameter is read (tested or passed on) -- also on the path for a segment that lacks the column file; in "
+             "ResultsPage.__init__ the requested page number is not read again after it was clamped into self.pagenum "
+             "(offset and length derive from the clamped value).")
+def c14_r8(ctx):
+    prog = ctx.prog
+    for (fn, param), why in MUST_CONSULT.items():
+        f = prog.func(fn)
+        ctx.saw(f)
+        if param not in f.params:
+            raise AnalysisError("%s lost its %s parameter" % (fn, param))
+        g = cfgmod.cfg_of(f)
+
+        def reads(n_, _p=param):
+            return any(isinstance(x, ast.Name) and x.id == _p and isinstance(x.ctx, ast.Load)
+                       for frag in cfgmod.node_exprs(n_) for x in ast.walk(frag))
+        bad = None
+        if not reads(g.entry):
+            pth = cfgmod.find_path(g, g.entry, lambda n_: n_.kind == "return" and n_.ast.value is not None and not reads(n_), avoid_pred=reads)
+            if pth is not None:
+                bad = pth
+        ctx.ob(f, bad is None, "`%s` is consulted on every path that returns a reader" % param,
+               detail="%s; a path ignores it" % why if bad else "", path=cfgmod.path_text(bad) if bad else None)
+    mr = prog.method("reading.MultiReader", "column_reader", inherited=False)
+    ctx.saw(mr)
+    subs = [c for c in norm.calls_in(mr.node) if norm.call_name(c) == "column_reader"]
+    okf = bool(subs)
+    for c in subs:
+        m_, probs = bind_args(c, mr)
+        okf = okf and bool(m_) and all(norm.canon(m_.get(p_)) == p_ for p_ in ("fieldname", "column", "reverse", "translate") if p_ in mr.params)
+    ctx.ob(mr, okf, "MultiReader.column_reader hands fieldname, column, reverse and translate to every sub-reader unchanged")
+    rp = prog.method("searching.ResultsPage", "__init__", inherited=False)
+    ctx.saw(rp)
+    pn = rp.params[2] if len(rp.params) > 2 else None
+    clamp = [st for st in rp.node.body if isinstance(st, ast.Assign) and any(norm.canon(t) == "self.pagenum" for t in st.targets)]
+    ok = False
+    detail = ""
+    if pn and len(clamp) == 1 and any(norm.call_name(c) == "min" for c in norm.calls_in(clamp[0].value)):
+        idx = rp.node.body.index(clamp[0])
+        later = [norm.stmt_text(st) for st in rp.node.body[idx + 1:]
+                 if any(isinstance(x, ast.Name) and x.id == pn and isinstance(x.ctx, ast.Load) for x in ast.walk(st))]
+        ok = not later
+        detail = "raw `%s` used after the clamp: %s" % (pn, later) if later else ""
+    ctx.ob(rp, ok, "offset and length are computed from the clamped self.pagenum", detail=detail)
